@@ -611,5 +611,9 @@ impl fmt::Display for Expr {
 
 // Computes factorial of a non-negative integer
 fn factorial(n: u64) -> f64 {
+    // 171! already exceeds f64::MAX; do not loop over astronomically large arguments
+    if n > 170 {
+        return f64::INFINITY;
+    }
     (2..=n).map(|x| x as f64).product()
 }
